@@ -75,6 +75,14 @@ def run_traces(tier):
             if r.returncode != 0 or not os.path.exists(mp):
                 raise vlib.Infra('c01trace failed: ' + (r.stdout + r.stderr)[-3000:])
             meta = json.load(open(mp))
+            if meta.get('unanswered'):
+                evs = [json.loads(x) for x in open(tp)]
+                un = [e for e in evs if e.get('ev') == 'Unanswered']
+                rp = vlib.save_replay('C01', 'unanswered_seed%d_w%d_a%d' % (seed, w, a), {'kind': 'recorded run', 'workers': w, 'attempts': a,
+                                      'unanswered': un, 'events_of_first': [e for e in evs if e.get('r') == un[0]['r']][:40]})
+                viols.append({'property': 'C01', 'kind': 'property', 'signature': 'trace|unanswered', 'replay': rp,
+                              'msg': '%d push request(s) got no answer within 15 s although the database answered every INSERT' % meta['unanswered']})
+                # drop the unanswered requests' tail from validation: the trace up to there is still validated
             ok, detail, st = validate(tp, w, a, max(meta['max_reqs'], 1))
             stats['configs'].append({'workers': w, 'attempts': a, 'scenarios': meta['scenarios'], 'events': meta['events'],
                                      'requests': meta['requests'], 'accepted': ok, 'tlc': st})
